@@ -20,12 +20,14 @@ def case_summary(case):
     return {"config": case["config"], "program": case["program"], "faults": case["faults"],
             "schedule": {"kind": case["schedule"]["kind"],
                          "preempt": case["schedule"].get("preempt", [])[:6],
+                         "prios": case["schedule"].get("prios"), "changes": case["schedule"].get("changes"),
                          "choices_prefix": case["schedule"].get("choices", [])[:12]}}
 
 
 def generic_hist(acc, case, H):
-    acc.count("policy:" + ("default" if not case["schedule"].get("preempt") and not case["schedule"].get("choices")
-                           else case["schedule"]["kind"]))
+    sk = case["schedule"]
+    acc.count("policy:" + (sk["kind"] if sk["kind"] == "pct" else "default" if not sk.get("preempt") and not sk.get("choices")
+                           else sk["kind"]))
     acc.count(f"user_threads:{len(case['program'])}")
     acc.count("executor:" + case["config"]["executor"])
     acc.count(f"timeout:{case['config']['timeout']}")
@@ -109,7 +111,7 @@ def shard(prop, seed, n, tier="quick", collect=False, profile=None):
     acc = Acc()
     open_f = findings.open_for(prop)
     state = {"best": None, "first_fail_t": None, "n": 0}
-    shrink_cap = 45.0 if tier == "quick" else 180.0
+    shrink_cap = float(os.environ.get("VERIF_SHRINK_CAP") or (45.0 if tier == "quick" else 180.0))
 
     @hypothesis.seed(seed)
     @settings(max_examples=n, database=None, deadline=None, report_multiple_bugs=False,
